@@ -525,10 +525,12 @@ def finish(ctx, level, rule, assumptions, coverage_extra=None, exhaustive=False)
         "wall_s": round(time.time() - ctx.t0, 1),
         "violations": len(new),
     }
-    os.makedirs(os.path.join(ROOT, "evidence"), exist_ok=True)
-    tmp = os.path.join(ROOT, "evidence", ".%s.json.%d" % (ctx.pid, os.getpid()))
+    # the listed properties write /verif/evidence/<id>.json; extension checks (X..: behaviour beyond the list) write evidence-ext/
+    evdir = os.path.join(ROOT, "evidence-ext" if ctx.pid.startswith("X") else "evidence")
+    os.makedirs(evdir, exist_ok=True)
+    tmp = os.path.join(evdir, ".%s.json.%d" % (ctx.pid, os.getpid()))
     json.dump(ev, open(tmp, "w"), indent=1, sort_keys=True)
-    os.replace(tmp, os.path.join(ROOT, "evidence", ctx.pid + ".json"))
+    os.replace(tmp, os.path.join(evdir, ctx.pid + ".json"))
     if rc == 0:
         print("OK property=%s tier=%s seed=%d states=%d scenarios=%d events=%d wall=%.0fs%s" %
               (ctx.pid, ctx.tier, ctx.seed, ctx.states, ctx.scenarios, ctx.events, time.time() - ctx.t0,
